@@ -3,6 +3,7 @@ package props
 import (
 	"fmt"
 	"reflect"
+	"strconv"
 	"strings"
 
 	"github.com/tyler-sommer/stick/parse"
@@ -57,6 +58,7 @@ const (
 	decoInnerCond
 	decoCondBranches
 	decoRichOperands
+	decoCondTrueBranch
 	decoCount
 )
 
@@ -122,6 +124,8 @@ func (p *c04) chainAt(i int) *c04chain {
 			c.inner = i % (n + 1)
 		case decoCondBranches:
 			c.cond = 2
+		case decoCondTrueBranch:
+			c.cond = 3
 		case decoRichOperands:
 			for x := 0; x <= n; x++ {
 				c.enrich(x, i/decoCount+x)
@@ -141,7 +145,7 @@ func (p *c04) chainAt(i int) *c04chain {
 			c.setPrefix(x, un[r.Intn(3)])
 		}
 	}
-	c.cond = r.Intn(3)
+	c.cond = r.Intn(4)
 	if r.Intn(3) == 0 {
 		c.inner = r.Intn(n + 1)
 	}
@@ -193,7 +197,7 @@ func (c *c04chain) fill(intn func(int) int) {
 	c.operands = make([]gen.Expr, n+1)
 	c.prefix = make([]string, n+1)
 	for i := 0; i <= n; i++ {
-		c.operands[i] = &gen.EName{Name: fmt.Sprintf("v%d", i)}
+		c.operands[i] = &gen.EName{Name: c04name(i)}
 	}
 	for i, op := range c.ops {
 		alt := i%2 == 0
@@ -209,7 +213,7 @@ func (c *c04chain) fill(intn func(int) int) {
 			}
 		case "in", "not in":
 			if alt {
-				c.operands[i+1] = &gen.EArr{Els: []gen.Expr{&gen.ENum{Text: "1"}, &gen.EName{Name: fmt.Sprintf("v%d", i+1)}, &gen.EStr{S: "a"}}}
+				c.operands[i+1] = &gen.EArr{Els: []gen.Expr{&gen.ENum{Text: "1"}, &gen.EName{Name: c04name(i + 1)}, &gen.EStr{S: "a"}}}
 			}
 		case "matches":
 			if alt {
@@ -255,9 +259,13 @@ func (c *c04chain) wrapCond(e gen.Expr, g func(gen.Expr) gen.Expr) gen.Expr {
 		return &gen.ETern{C: e, A: &gen.EStr{S: "T"}, B: &gen.EStr{S: "F"}}
 	case 2:
 		// c ? chain : (c2 ? a : chain) — right-nested conditionals with the chain in the branches
-		inner := &gen.ETern{C: &gen.EName{Name: "v1"}, A: &gen.EStr{S: "M"}, B: e}
+		inner := &gen.ETern{C: &gen.EName{Name: c04name(1)}, A: &gen.EStr{S: "M"}, B: e}
 		var innerE gen.Expr = inner
 		return &gen.ETern{C: &gen.EName{Name: "v0"}, A: e, B: g(innerE)}
+	case 3:
+		// c ? (c2 ? a : chain) : chain — a conditional nested in the TRUE branch, written without parentheses
+		inner := &gen.ETern{C: &gen.EName{Name: c04name(1)}, A: &gen.EStr{S: "M"}, B: e}
+		return &gen.ETern{C: &gen.EName{Name: "v0"}, A: g(inner), B: e}
 	}
 	return e
 }
@@ -385,9 +393,23 @@ var c04Valuations = []map[string]interface{}{
 	{"v0": true, "v1": nil, "v2": false, "v3": 2, "v4": true, "v5": "", "v6": 0, "v7": nil, "v8": 1, "v9": false, "v10": true, "v11": 3, "v12": nil, "v13": 2},
 }
 
+// c04name: every other operand is a name that begins with an operator word (index, order, isle, nota, andy ...):
+// where a word operator ends and a name begins must not depend on what the name looks like.
+func c04name(i int) string {
+	if i%2 == 1 {
+		return []string{"index", "order", "isle", "nota", "andy", "matchesx", "bandit"}[(i/2)%7] + strconv.Itoa(i)
+	}
+	return "v" + strconv.Itoa(i)
+}
+
 func (p *c04) exprProgram(e gen.Expr, val int) *Program {
 	t := &gen.Template{Name: "main", Body: []gen.Node{&gen.NText{S: "<"}, &gen.NPrint{X: e}, &gen.NText{S: ">"}}}
-	return &Program{Templates: map[string]*gen.Template{"main": t}, Main: "main", Ctx: c04Valuations[val]}
+	ctx := map[string]interface{}{}
+	for k, v := range c04Valuations[val] {
+		i, _ := strconv.Atoi(k[1:])
+		ctx[c04name(i)] = v
+	}
+	return &Program{Templates: map[string]*gen.Template{"main": t}, Main: "main", Ctx: ctx}
 }
 
 func (p *c04) Describe(i int) interface{} {
@@ -444,7 +466,7 @@ func (p *c04) Run(i int) (res fw.Result) {
 }
 
 func (p *c04) Rule() string {
-	return "exhaustive: every chain of k binary operators (all 27, incl. is / is not with a test as right operand) over self-identifying operands for k<=2 (quick) / k<=4 (thorough: 27+729+19683+531441 chains), each in 9 decorations (plain; operands that are not plain names: interpolated strings ending / starting / consisting of an interpolation, calls, filters, subscripts of array and hash literals, string literals; unary -,+,not on the first / second / last operand; not on the first plus - on the last; trailing conditional; a parenthesised conditional as an operand; right-nested conditionals with the chain in the branches); plus seeded random chains of 5..12 operators with random prefixes and conditionals. Oracle: reference precedence climbing over a pinned copy of the operator table yields the fully parenthesised form; the flat and the parenthesised spelling must parse to the same tree (GroupExpr erased) and render identically (output and error kind) under 3 valuations (all chains k<=3, every 20th k=4 chain, all random chains). Non-trivial = k>=2; distinct = operator sequence + decoration."
+	return "exhaustive: every chain of k binary operators (all 27, incl. is / is not with a test as right operand) over self-identifying operands for k<=2 (quick) / k<=4 (thorough: 27+729+19683+531441 chains), each in 10 decorations (plain; operands that are not plain names: interpolated strings ending / starting / consisting of an interpolation, calls, filters, subscripts of array and hash literals, string literals; unary -,+,not on the first / second / last operand; not on the first plus - on the last; trailing conditional; a parenthesised conditional as an operand; right-nested conditionals with the chain in the branches; a conditional nested in the true branch); every other operand name begins with an operator word (index1, order3, isle5, nota7, andy9 ...); plus seeded random chains of 5..12 operators with random prefixes and conditionals. Oracle: reference precedence climbing over a pinned copy of the operator table yields the fully parenthesised form; the flat and the parenthesised spelling must parse to the same tree (GroupExpr erased) and render identically (output and error kind) under 3 valuations (all chains k<=3, every 20th k=4 chain, all random chains). Non-trivial = k>=2; distinct = operator sequence + decoration."
 }
 
 func (p *c04) Assumptions() []string {
